@@ -50,13 +50,18 @@ theorem ReorderInv.held_mem {ext : Nat → Nat} {m : Mgr} (h : ReorderInv ext m)
     (hu : 0 < ext u) : m.tbl.Mem (u : Int) := by
   simpa [Tbl.Mem] using h.refExact.mem_of_ext_pos hu
 
-theorem swapOK (ext : Nat → Nat) : SwapOK (ReorderInv ext) (ReorderRel ext) := by
+/-- the only exception allowed: the model's schedule-mismatch report -/
+abbrev SchedErr : Err → Prop := fun e => e = Err.sched
+/-- no exception allowed -/
+abbrev NoErr : Err → Prop := fun _ => False
+
+theorem swapOK (ext : Nat → Nat) : SwapOK SchedErr (ReorderInv ext) (ReorderRel ext) := by
   refine ⟨ReorderRel.refl ext, fun a b c h1 h2 => h1.trans h2, fun m h => h.order, ?_, ?_⟩
   · intro m h r hr
     have := h.refExact.mem_of_ext_pos (h.rootsHeld r hr)
     exact (Mgr.mem_iff m r).mpr this
   · intro m i h hi
-    refine OkOrSched.mono ?_ (swapBody_spec m ext h.inv h.order h.refExact h.off i hi)
+    refine OkOr.mono ?_ (swapBody_spec m ext h.inv h.order h.refExact h.off i hi)
     intro r m' ⟨hp, hsch⟩
     refine ⟨⟨hp.inv, hp.order, hp.refExact, ?_, ?_⟩,
       ⟨?_, hp.names, hp.exch.nvars, hp.exch.roots, hp.ctx, hp.lastLen, hsch⟩, hp.exch, hp.sizes⟩
@@ -65,6 +70,23 @@ theorem swapOK (ext : Nat → Nat) : SwapOK (ReorderInv ext) (ReorderRel ext) :=
     · intro u hu a
       obtain ⟨h0, h1⟩ := hp.held u hu
       exact hp.denN _ h0 h1 a
+
+/-- with no recorded schedule (the model iterates in ascending order) nothing can fail -/
+theorem swapOK0 (ext : Nat → Nat) :
+    SwapOK NoErr (fun m => ReorderInv ext m ∧ m.sched = []) (ReorderRel ext) := by
+  refine ⟨ReorderRel.refl ext, fun a b c h1 h2 => h1.trans h2, fun m h => h.1.order,
+    fun m h => (swapOK ext).roots m h.1, ?_⟩
+  intro m i h hi
+  obtain ⟨r, m', hrun, hp, hs'⟩ :=
+    swapBody_total m ext h.1.inv h.1.order h.1.refExact h.1.off i hi h.2
+  rw [hrun]
+  refine ⟨⟨⟨hp.inv, hp.order, hp.refExact, ?_, ?_⟩, hs'⟩,
+    ⟨?_, hp.names, hp.exch.nvars, hp.exch.roots, hp.ctx, hp.lastLen, fun _ => hs'⟩, hp.exch, hp.sizes⟩
+  · rw [hp.ctx, hp.lastLen]; exact h.1.off
+  · rw [hp.exch.roots]; exact h.1.rootsHeld
+  · intro u hu a
+    obtain ⟨h0, h1⟩ := hp.held u hu
+    exact hp.denN _ h0 h1 a
 
 /-- a collection keeps `ReorderInv` and the denotation of every held reference -/
 theorem gcSub_keeps {ext : Nat → Nat} {m m' : Mgr} (h : ReorderInv ext m) (hI : Inv m')
@@ -85,7 +107,7 @@ theorem gcSub_keeps {ext : Nat → Nat} {m m' : Mgr} (h : ReorderInv ext m) (hI 
     rw [hl]
     exact den_sub hs hI.wf.toWF _ h1 _
 
-theorem siftEnv (ext : Nat → Nat) : SiftEnv (ReorderInv ext) (ReorderRel ext) := by
+theorem siftEnv (ext : Nat → Nat) : SiftEnv SchedErr (ReorderInv ext) (ReorderRel ext) := by
   refine { toSwapOK := swapOK ext, gc := ?_, sched := ?_ }
   · intro m h
     obtain ⟨m', hrun, hp⟩ := collectGarbage_spec m ext h.inv h.refExact
@@ -174,7 +196,7 @@ theorem swap_public_spec (ext : Nat → Nat) (m : Mgr) (h : ReorderInv ext m) (x
     | name s => show mg.tbl.vars[s]? = some b; rw [hv]; exact hb
     | level j => exact hb
   rw [swap_eq_body mg xa ya x a b (by rw [hn]; exact hx) ha' hb' hab]
-  refine OkOrSched.mono ?_ ((swapOK ext).step mg x hg (by rw [hn]; exact hx))
+  refine OkOr.mono ?_ ((swapOK ext).step mg x hg (by rw [hn]; exact hx))
   intro r m' ⟨hP', hR', hE, hr⟩
   refine ⟨hP', hsame.trans hR', ⟨?_, hE.nvars.trans hn, hE.roots.trans hp.sub.roots⟩, ?_, ?_⟩
   · intro j; rw [hE.l2v j, hp.sub.l2v]
